@@ -218,7 +218,7 @@ func scenario(w *vt.Writer, t *conc.Target, ops []*op, G, K int, sc int) {
 	// block) and shared associated-data buffers to the producing operations, at the same time. Reading caller
 	// memory concurrently is legal, so a result that differs from Alone, a race report on these buffers or a
 	// buffer that is not intact afterwards is the library's doing.
-	sres, intact := sharedPhase(w, t.Class, ops[:nClass], G, K, sc)
+	sres, intact := sharedPhase(w, t.Class, t.Cost, ops[:nClass], G, K, sc)
 	for g := range sres {
 		for i, r := range sres[g] {
 			e := r.ev("conc")
@@ -413,9 +413,12 @@ func hasKeyManagers(h *keyset.Handle) bool {
 // library code and this reader for the race detector (which works on happens-before, not on overlap) and (b),
 // where the write happens in code the detector does not instrument (assembly), visible to the reader as a
 // buffer whose content differs from what the callers passed.
-func sharedPhase(w *vt.Writer, class string, ops []*op, G, K, sc int) ([][]result, []vt.Ev) {
+func sharedPhase(w *vt.Writer, class string, cost int, ops []*op, G, K, sc int) ([][]result, []vt.Ev) {
 	rg := vt.Rng(int64(sc)*271 + 9)
 	bufs := [][]byte{vt.Bytes(rg, 7), vt.Bytes(rg, 40), vt.Bytes(rg, 16)} // exact capacity: nothing may be appended in place either
+	if cost == 2 {
+		bufs = bufs[:2] // calls of tens of milliseconds (SLH-DSA): one short, one long buffer, one repetition
+	}
 	// one LARGE shared message for the deterministic producers (the time a call spends on it is the window in which
 	// another goroutine can see a temporarily modified buffer): 64 KiB, a 1 KiB salt for keyset derivation
 	large := -1
@@ -474,7 +477,10 @@ func sharedPhase(w *vt.Writer, class string, ops []*op, G, K, sc int) ([][]resul
 			}
 		}
 	}
-	const reps = 4 // the phase is repeated: every repetition is a new chance for the scheduler
+	reps := 4 // the phase is repeated: every repetition is a new chance for the scheduler
+	if cost > 0 {
+		reps = 4 >> cost // 2 for calls of milliseconds, 1 for calls of tens of milliseconds
+	}
 	rounds := K / (reps * 2 * len(bufs) * len(variants[0]))
 	if rounds < 1 {
 		rounds = 1
